@@ -46,7 +46,7 @@ def setup(ctx):
     from smartquery import SqParser
     ctx.P = SqParser()
     from smartquery import functions as _functions
-    ctx.count('table_entries_unknown_to_the_pinned_tree_added_to_the_identifier_pool', len(gram.use_table_names(sorted(_functions.FUNCTIONS))))
+    ctx.count('table_entries_unknown_to_the_pinned_tree_added_to_the_identifier_pool', len(gram.use_table_names(gram.table_names())))
     ctx.PC = SqParser(parse_cache={})     # texts that agree up to a '#' inside a string, or up to layout, must not share a tree
     ctx.all_prods = set(gram.PROD_IDS)
 
